@@ -562,8 +562,10 @@ def rule_prop_domain(chk, db, cfgname, rid):
 def rule_seam_both_ends(chk, db, cfgname, rid):
     chk.rule(rid, 'an edge is a property seam when the property vertices of its two halfedges differ at EITHER end: a '
              'function that compares (== / !=) the paired halfedge\'s property index at one end of the edge - '
-             'Prop(pair) or PropEnd(pair) / Prop(NextHalfedge(pair)), pair = Pair(e) - also compares it at the '
-             'other end (sibling agreement of the seam tests in CollapseEdge, HasSimpleProps and Subdivide)')
+             'Prop(pair) or PropEnd(pair) / Prop(NextHalfedge(pair)), pair = Pair(e) - with the property index of e '
+             'itself also makes that comparison at the other end (sibling agreement of the seam tests in Continuous, '
+             'HasSimpleProps and Subdivide); comparisons with another halfedge\'s index are per-vertex tests and '
+             'are not judged')
     n = 0
     for f in db.functions.values():
         if not f.get('blocks') or not f['file'].startswith('src/'):
@@ -586,20 +588,42 @@ def rule_seam_both_ends(chk, db, cfgname, rid):
                         t = T.strip(y.get('l') or y.get('e') or {})
                         if t.get('k') == 'var' and t.get('d'):
                             assigned.add(t['d'])
-        pairs = set()
+        pairs = {}      # declaration of the local -> text of e in `Pair(e)`
         for name, init in inits.items():
             if name in assigned:
                 continue
             i0 = T.strip_copy(init)
-            if i0.get('k') == 'call' and T.short(i0.get('fn', '')) == 'Pair' and \
+            if i0.get('k') == 'call' and T.short(i0.get('fn', '')) == 'Pair' and i0.get('args') and \
                     'Halfedges' in (i0.get('mcls') or i0.get('fn', '')):
-                pairs.add(name)
+                pairs[name] = T.pstr(T.strip_copy(i0['args'][0]))
         if not pairs:
             continue
 
         def is_pair(a):
             a = T.strip_copy(a)
             return a.get('k') == 'var' and a.get('d') in pairs
+
+        def own_side(x, depth=0):
+            """text of e when x is a property index of the halfedge e itself: Prop(e), PropEnd(e), Prop(Next(e))"""
+            x = T.strip_copy(x)
+            if x.get('k') == 'var' and x.get('d') in inits and x['d'] not in assigned and depth < 2:
+                return own_side(inits[x['d']], depth + 1)
+            if x.get('k') != 'call' or not x.get('args') or T.short(x.get('fn', '')) not in ('Prop', 'PropEnd'):
+                return None
+            a = T.strip_copy(x['args'][0])
+            if a.get('k') == 'call' and T.short(a.get('fn', '')) == 'NextHalfedge' and a.get('args'):
+                a = T.strip_copy(a['args'][0])
+            return T.pstr(a)
+
+        def pair_of(x, depth=0):
+            """declaration of the pair local whose property index x is"""
+            x = T.strip_copy(x)
+            if x.get('k') == 'var' and x.get('d') in inits and x['d'] not in assigned and depth < 2:
+                return pair_of(inits[x['d']], depth + 1)
+            for y in T.walk(x):
+                if isinstance(y, dict) and y.get('k') == 'var' and y.get('d') in pairs:
+                    return y['d']
+            return None
 
         def side(x, depth=0):
             """'start' / 'end': the paired halfedge's property index at its start / end vertex"""
@@ -624,16 +648,19 @@ def rule_seam_both_ends(chk, db, cfgname, rid):
         for r in roots:
             for y in T.walk(r):
                 if isinstance(y, dict) and y.get('k') == 'bin' and y.get('op') in ('==', '!='):
-                    for o in (y['l'], y['r']):
+                    # an edge-level seam comparison relates the pair's property index with the property index of
+                    # the very halfedge e the pair was taken from (pair = Pair(e)); a comparison with the property
+                    # index of some other halfedge is a per-vertex test (SwapEdge borrowing a neighbour's vertex)
+                    for o, other in ((y['l'], y['r']), (y['r'], y['l'])):
                         sd = side(o)
-                        if sd:
+                        if sd and own_side(other) is not None and own_side(other) == pairs.get(pair_of(o)):
                             seen.setdefault(sd, (y.get('ln'), T.pstr(y)[:80]))
         if not seen:
             continue
         n += 1
         ok = len(seen) == 2 or any(f['name'].startswith(r['function']) for r in
                                    load_table().get('one_ended_seam_tests_reviewed', []))
-        chk.obligation(ok, {'function': f['name'][:70], 'pair locals declared at': sorted(pairs),
+        chk.obligation(ok, {'function': f['name'][:70], 'pair locals': sorted(pairs.values()),
                             'ends compared': {k: v[1] for k, v in seen.items()}})
         if not ok:
             have = list(seen)[0]
